@@ -60,4 +60,18 @@ CHECKS = {
         "note": "Trusted: rustc MIR; the spec table written from docs/src/grammar_language.md and the property statement; "
                 "the resolution lives in LRTable::calculate_reductions (anchor, fail closed if it moves).",
     },
+    "C18": {
+        "engine": "mirfacts",
+        "level": "other",
+        "ref": "DESIGN.md §5 C18",
+        "technique": "who-may-mutate (typed &mut confinement) + guard dominance/polarity/key agreement by path simulation "
+                     "+ must-pass-through write + finite force table",
+        "text": "For every existing actions file and grammar: the parsed item list can only be appended to (complete set of "
+                "&mut accesses), every append is on the not-contained edge of a lookup of the item's own name in the right "
+                "set, the collector records every item kind under the set the guards consult, parse-existing <=> exists and "
+                "not force, every Ok path writes unparse(ast) to the checked path, single writer and single guarded caller. "
+                "Structural, for all inputs; does not execute the generator.",
+        "note": "Trusted: rustc MIR and Rust's aliasing rules (mutation needs &mut; syn::File has no interior mutability); "
+                "prettyplease::unparse . syn::parse_file assumed stable on existing items.",
+    },
 }
